@@ -622,7 +622,7 @@ pub struct C20 {
     pub mutations: Vec<Op>,
 }
 
-fn hash_of<T: Hash>(x: &T) -> u64 {
+pub fn hash_of<T: Hash>(x: &T) -> u64 {
     let mut h = DefaultHasher::new();
     x.hash(&mut h);
     h.finish()
@@ -735,7 +735,7 @@ impl Case for C20 {
 }
 
 /// the abstract digraph a history should produce (library semantics per C01)
-fn model_after(repr: &str, h: &History) -> G {
+pub fn model_after(repr: &str, h: &History) -> G {
     let grows = repr == "AdjacencyMap";
     let mut g = make_model(&h.start, h.order);
     for op in &h.ops {
@@ -759,7 +759,7 @@ fn model_after(repr: &str, h: &History) -> G {
 }
 
 /// a different history that leads to the abstract digraph `g`
-fn rebuild_history(rng: &mut Rng, repr: &str, g: &G) -> History {
+pub fn rebuild_history(rng: &mut Rng, repr: &str, g: &G) -> History {
     let grows = repr == "AdjacencyMap";
     let toggle = repr == "AdjacencyMatrix";
     let weighted = repr.starts_with("AdjacencyListWeighted");
@@ -842,6 +842,13 @@ fn valid_mutation(rng: &mut Rng, repr: &str, g: &G) -> Op {
 }
 
 pub fn search_c20(seed: u64, ctx: &mut Ctx) -> Option<J> {
+    // the same abstract digraph through different construction routes
+    if let Some(f) = crate::c_eq::search_routes(seed, ctx) {
+        return Some(f);
+    }
+    if ctx.expired() {
+        return None;
+    }
     let mut rng = Rng::new(seed);
     for round in 0..10_000usize {
         let len_max = (1 + round / 40).min(12);
@@ -919,7 +926,7 @@ fn history_from(j: &J, repr: &str) -> Result<History, String> {
     Ok(History { start, order, ops })
 }
 
-fn ops_from(j: &J, repr: &str) -> Result<Vec<Op>, String> {
+pub fn ops_from(j: &J, repr: &str) -> Result<Vec<Op>, String> {
     let ops = j
         .arr()?
         .iter()
@@ -935,6 +942,9 @@ fn ops_from(j: &J, repr: &str) -> Result<Vec<Op>, String> {
 }
 
 pub fn replay_c20(j: &J) -> Result<Option<J>, String> {
+    if j.get("routes").is_some() {
+        return crate::c_eq::replay_routes(j);
+    }
     let repr = j.req("repr")?.str()?.to_string();
     known_repr(&repr)?;
     let first = history_from(j.req("first")?, &repr)?;
